@@ -2,6 +2,8 @@
 import json
 import time
 
+import codecseq
+
 from common import Infra, Scratch, Verdict, seed, build_harness, harness_json, log, marker_json, require_ok, run_tlc, write_evidence
 
 RULES = {
@@ -96,9 +98,15 @@ def run_cql(prop, tier):
         rand = None
         if prop in ("C11", "C12", "C13"):
             rand = random_leg(s, h, v, prop, tier)
+        cs = None
+        if prop in ("C11", "C12"):
+            # the value codecs called more than once: encoded bytes the caller keeps, calls after failed calls (CodecSeq.tla)
+            cs = codecseq.run_codecseq(s, h, tier, prop)
+            for x in cs["violations"]:
+                v.violation(x["sig"], x["detail"], x["replay"])
         unlisted = v.finish()
         cov = dict(evaluations=rep["evaluations"] + (rand["conversions"] if rand else 0), distinct_nontrivial=rep["distinct"] + (rand["distinct"] if rand else 0),
-                   rule=RULES[prop], samples=rep["samples"], tlc_cases=len(cases), extra=rep.get("extra"), random_leg=rand, known_findings=sorted(v.known_hits))
+                   rule=RULES[prop], samples=rep["samples"], tlc_cases=len(cases), extra=rep.get("extra"), random_leg=rand, codec_histories=({k: cs[k] for k in cs if k != "violations"} if cs else None), known_findings=sorted(v.known_hits))
         if rand:
             cov["traces_validated_against_impl"] = rand["conversions"]
         write_evidence(prop, tier, "exploration", cov, time.time() - t0, unlisted,
